@@ -456,7 +456,7 @@ func c07Child(r *ev.Run, batch int) {
 				for _, f := range judgeNotif(m, mon.req, mine, delta, pre, post) {
 					r.Violation(f.Sig, f.What, wit())
 				}
-				if batch == 0 && ci == 0 && r.NeedSample() && len(mine) > 0 {
+				if r.NeedSample() && len(mine) > 0 {
 					r.Sample(wit())
 				}
 			}
